@@ -15,10 +15,17 @@
 (*   SortAndStride (_sort_and_stride), CalcSlices (_calc_stats), StatsTable/StatsRaster      *)
 (*   (_stats_numpy), FindCats, SingleZone2D (_single_zone_crosstab_2d with cat_start),       *)
 (*   SingleZone3D, CrosstabTable (_crosstab_numpy incl. the "zone" column).                  *)
-(* `variant` is a set of repairs applied to the transcription:  {} = the code as it is;      *)
-(*   "strip"    non-finite zones removed from values_by_zones / sorted_indices too           *)
-(*   "catstart" cat_start advanced for every category                                        *)
-(*   "labels"   rows labelled with the zone they were computed for                           *)
+(* `variant` is a set of repairs applied to the transcription:  {} = the code before the     *)
+(* fix: commits 7d7d291 / a1fb154 / 2bd4c42 of /repo; the code today is                      *)
+(* {"dropneginf"} (stats) resp. {"dropneginf", "catstart", "labels"} (crosstab).              *)
+(*   "dropneginf" the leading -inf cells are dropped from sorted_indices / sorted_zones       *)
+(*              (hence from values_by_zones) before the strides are taken      [7d7d291]      *)
+(*   "strip"    every non-finite zone removed from values_by_zones / sorted_indices (an        *)
+(*              alternative repair, kept as a model only)                                      *)
+(*   "catstart" cat_start advanced for every category                          [a1fb154]      *)
+(*   "labels"   zone_ids = [z for z in unique_zones if z in zone_ids]: the "zone" column is   *)
+(*              the existing requested zones in unique_zones order = the zone each row was     *)
+(*              computed for                                                    [2bd4c42]      *)
 (* `mut` selects a negative twin (deliberately broken, must be rejected by TLC).             *)
 EXTENDS Integers, Sequences, FiniteSets, TLC
 
@@ -140,10 +147,12 @@ SortAndStride(z, v, p, variant) ==
   LET n == Len(z)
       sortedZones == [k \in 1..n |-> z[p[k]]]
       keep == IF "strip" \in variant THEN SelectSeq([k \in 1..n |-> k], LAMBDA k : Finite(sortedZones[k]))
+              ELSE IF "dropneginf" \in variant
+                   THEN SelectSeq([k \in 1..n |-> k], LAMBDA k : sortedZones[k] # NINF)   \* sorted_indices[num_neg_inf:]
               ELSE [k \in 1..n |-> k]
   IN [sortedIndices |-> [k \in 1..Len(keep) |-> p[keep[k]]],
       valuesByZones |-> [k \in 1..Len(keep) |-> v[p[keep[k]]]],
-      sortedZones   |-> SelectSeq(sortedZones, Finite)]        \* stripped in the zone array only
+      sortedZones   |-> SelectSeq(sortedZones, Finite)]        \* +inf / NaN: stripped in the zone array only (they sort last)
 
 Slice(s, start, end) == SubSeq(s, start + 1, end)             \* python s[start:end]
 Start(zb, i) == IF i = 1 THEN 0 ELSE zb[i - 1]
